@@ -94,8 +94,101 @@ def tokens_scenario(ctx, job):
             pass
 
 
+# ---------------------------------------------------------------- command layer (real ForwardHandler::handle_cmd_ctx)
+def numtext(name):
+    """a command element holding the canonical decimal text of a full-range symbolic u64"""
+    v = z3.BitVec(name, 64)
+    return RVec([], text=RStr((NumStr(v, 64),))), v
+
+
+class AnyRedis:
+    """backend stand-in for the sweep: answers every command (keys may be symbolic)"""
+    def __init__(self): self.log = []
+    def execute(self, e, elems):
+        from props.executor import simple, integer, as_bytes
+        self.log.append(elems)
+        name = (as_bytes(elems[0]) or b'').upper()
+        if name in (b'DEL', b'EXISTS', b'SETNX', b'MSETNX'): return integer(e, 1)
+        return simple(e, b'OK')
+
+
+def handler_request(ctx, job):
+    """one request through the real handle_cmd_ctx (async handlers polled to completion): no panic, every loop bounded
+    by the request, and the request is answered"""
+    from props import executor as X
+    def setup(e): e.loop_budget = 64
+    def run(e):
+        h, mgr, redis = X.make_handler(e, 'Disabled', AnyRedis(), active_redirection=job.get('active', False))
+        elems = []; syms = {}
+        for i, t in enumerate(job['req']):
+            if t == '#':
+                el, v = numtext('n%d' % i); syms['n%d' % i] = v
+                elems.append(el)
+            elif isinstance(t, tuple) and t[0] == 'sym':
+                elems.append([z3.BitVec('a%d_%d' % (i, k), 8) for k in range(t[1])])
+            else: elems.append(list(t))
+        def concrete(m):
+            out = []
+            for el in elems:
+                if isinstance(el, RVec): out.append(list(str(concretize(un(el.text).s[0].v, m)).encode()))
+                else: out.append([concretize(b, m) for b in el])
+            return out
+        e.notes['replay_fn'] = lambda m: {'kind': 'rust-test', 'filter': 'verif_replay_request_bounded', 'spec': {'cmd': concrete(m), 'max_ms': 5000}}
+        ctxv, rcv = X.make_cmd_ctx(e, [el if not isinstance(el, RVec) else [] for el in elems])
+        # install the text-backed number elements into the request (bytes = canonical decimal text of a symbolic number)
+        if any(isinstance(el, RVec) for el in elems):
+            pkt = X.data_packet(e, X.array(e, [X.bulk(e, el) if not isinstance(el, RVec) else
+                                                Enum('Resp', e.src.variant_index('Resp', 'Bulk'), [Enum('BulkStr', e.src.variant_index('BulkStr', 'Str'), [el])]) for el in elems]))
+            cmd = e.run_func(e.find_fn('Command', 'new'), [Ref(Cell(pkt), 'Box')])
+            pair = e.call('command::new_command_pair', [Ref(Cell(cmd))])
+            ctxv = e.run_func(e.find_fn('CmdCtx', 'new'), [cmd, pair.f[0].v, 1, False]); rcv = pair.f[1].v
+        auth = Struct('Atomic', [True])
+        fut = e.run_func(e.find_fn('ForwardHandler', 'handle_cmd_ctx', 'CmdCtxHandler'), [Ref(Cell(h)), ctxv, rcv, Ref(Cell(auth))])
+        r = e.block_on(Ref(Cell(fut)))
+        rr = X.reply_resp(e, r)
+        ctx.require(e, 'request-answered', rr[0] == 'ok' or rr[1] in ('Canceled', 'Dropped', 'InnerError', 'Io', 'BackendError', 'UnexpectedResponse'), key='C16/request-not-answered/' + job['name'])
+        return 1
+    res = ctx.explore('handler %s' % job['name'], run, engine_setup=setup, budget_violation='C16/loop-not-bounded-by-input', max_paths=4000)
+    ctx.ops += len(res)
+
+
+def command_names():
+    import re, os
+    from vlib import overlay
+    src = open(os.path.join(overlay.CRATE, 'src/proxy/command.rs')).read()
+    data = sorted(set(re.findall(r'b"([A-Z]+)" => DataCmdType::', src)))
+    return data
+
+
+def handler_jobs(quick):
+    jobs = []
+    S2 = ('sym', 2)
+    for name in ('EVAL', 'evalsha'):
+        jobs.append({'kind': 'handler', 'name': name + ' numkeys=<any u64> 2 keys', 'req': [name.encode(), b'return 1', '#', b'{t}a', b'{t}b']})
+        jobs.append({'kind': 'handler', 'name': name + ' numkeys=<any u64> 1 key 1 arg', 'req': [name.encode(), b'return 1', '#', S2, S2]})
+        jobs.append({'kind': 'handler', 'name': name + ' numkeys=<any u64> no key', 'req': [name.encode(), b'return 1', '#']})
+        jobs.append({'kind': 'handler', 'name': name + ' numkeys=<3 symbolic bytes>', 'req': [name.encode(), b'x', ('sym', 3), b'{t}a', b'{t}b']})
+    jobs.append({'kind': 'handler', 'name': 'UMFORWARD <any u64> GET k', 'req': [b'UMFORWARD', '#', b'GET', b'k']})
+    jobs.append({'kind': 'handler', 'name': 'UMFORWARD <any u64> EVAL s <any u64> k k', 'req': [b'UMFORWARD', '#', b'EVAL', b's', '#', b'{t}a', b'{t}b']})
+    jobs.append({'kind': 'handler', 'name': 'UMFORWARD <any u64>', 'req': [b'UMFORWARD', '#']})
+    jobs.append({'kind': 'handler', 'name': 'UMFORWARD <any u64> MGET k k (active redirection)', 'req': [b'UMFORWARD', '#', b'MGET', b'{t}a', b'{u}b'], 'active': True})
+    for name in (b'BLPOP', b'BRPOP', b'BZPOPMIN', b'BZPOPMAX'):
+        jobs.append({'kind': 'handler', 'name': name.decode() + ' k k <any u64 timeout>', 'req': [name, b'{t}a', b'{t}b', '#']})
+    jobs.append({'kind': 'handler', 'name': 'BRPOPLPUSH a b <any u64 timeout>', 'req': [b'BRPOPLPUSH', b'{t}a', b'{t}b', '#']})
+    names = command_names()
+    argcs = (0, 1, 2, 3, 5) if not quick else (0, 1, 2, 4)
+    for n in names:
+        for argc in argcs:
+            if n in ('BLPOP', 'BRPOP', 'BRPOPLPUSH', 'BZPOPMIN', 'BZPOPMAX') and argc >= 2: continue   # need a numeric timeout: templates above
+            jobs.append({'kind': 'handler', 'name': '%s with %d symbolic argument(s)' % (n, argc), 'req': [n.encode()] + [S2] * argc})
+    for n in (b'PING', b'ECHO', b'SELECT', b'QUIT', b'ASKING', b'HELLO', b'\xff\xfe', b'', b'get'):
+        for argc in (0, 2):
+            jobs.append({'kind': 'handler', 'name': '%r with %d symbolic argument(s)' % (n, argc), 'req': [n] + [S2] * argc})
+    return jobs
+
+
 def worker(ctx, job):
-    {'buf': parser_buffers, 'tok': tokens_scenario}[job['kind']](ctx, job)
+    {'buf': parser_buffers, 'tok': tokens_scenario, 'handler': handler_request}[job['kind']](ctx, job)
 
 
 SETCLUSTER = [
@@ -113,11 +206,15 @@ def run(ctx):
     jobs = [{'kind': 'buf', 'n': n} for n in range(1, N + 1)]
     for t in SETCLUSTER: jobs.append({'kind': 'tok', 'entry': 'setcluster', 'template': t})
     for t in TASKMETA: jobs.append({'kind': 'tok', 'entry': 'taskmeta', 'template': t})
+    hj = handler_jobs(quick); jobs += hj
     ctx.bounds = {'symbolic buffer length': '1..%d bytes' % N, 'token templates': len(SETCLUSTER) + len(TASKMETA),
-                  'numbers in tokens': 'symbolic 64-bit decimal text (counts, epochs, range ends), truncation at every position'}
-    ctx.assumptions += ['memory bound = allocation requests (capacity arguments) <= number of input bytes / tokens; Rust allocation of pushed elements is proportional to parsed input by construction',
+                  'numbers in tokens': 'symbolic 64-bit decimal text (counts, epochs, range ends), truncation at every position',
+                  'command layer': '%d requests through the real ForwardHandler::handle_cmd_ctx: every data command name of DataCmdType x 0..5 two-byte symbolic arguments, EVAL/EVALSHA/UMFORWARD/blocking pops with full-range symbolic numbers' % len(hj)}
+    ctx.assumptions += ['command layer: MetaManager::send / ensure_keys_imported are stand-ins that answer every command at once through the real DecompressCommitHandler (stub:* in models_used); tokio::time::sleep returns at once',
+                        'memory bound = allocation requests (capacity arguments) <= number of input bytes / tokens; Rust allocation of pushed elements is proportional to parsed input by construction',
                         'arithmetic-overflow panics exist only in builds with overflow checks (debug profile); they are reported with that note']
     ctx.not_explored += ['RSS / wall-clock measurement', 'stack exhaustion by deeply nested arrays (recursion depth = input/4; no stack model)',
                          'session loop, codec framing, liveness of other connections (async runtime)', 'arbitrary (non-numeric) hostile text inside UMCTL tokens',
-                         'command handlers behind async fn (EVAL numkeys loop 3..3+numkeys: see DESIGN.md F3, not decided here)']
+                         'UMCTL / CLUSTER / CONFIG / INFO / COMMAND / AUTH handlers (need the real MetaManager); blocking pops that stay empty (retry once per second by design)',
+                         'symbolic sub-command / option text (sub-commands are concrete)']
     ctx.run_parallel(jobs, worker)
